@@ -21,6 +21,8 @@ DECIDED = [
     "conversion), i.e. a whole number of periods after the time base with the strict '+ 1'",
     "R-C19-OVERDUE (clock form): all expiry tests read the clock the same way (sibling agreement); R-C19-PERIOD (whole durations): no duration is taken from timedelta.seconds/.microseconds without .days",
     "R-C19-PERIOD (reuse): rounding lattice of C05 and first-run rule of C06 under this property; R-C19-OVERDUE (clock family)",
+    "R-C19-OVERDUE (round 6): the message's time base is the job's (C07 mapping reused)",
+    "R-C19-AWAITED: in the files this property is anchored in, no bare statement calls a coroutine function (the operation would never run)",
 ]
 NOT_DECIDED = ["the inequality now < next <= now + period as an arithmetic fact over runtime values (follows from the normal form by floor-division "
                "properties; the identity itself is not proven here)", "cron schedules (croniter)"]
@@ -28,8 +30,15 @@ ASSUMPTIONS = ["Python int is arbitrary precision; timedelta // timedelta and ti
 
 
 def run(ctx: Ctx) -> None:
+    from .shared import every_operation_awaited
+
+    every_operation_awaited(ctx, "R-C19-AWAITED")  # in the files this property is anchored in, no asynchronous operation is created and dropped
     backoff(ctx)
     overdue_siblings(ctx, "R-C19-OVERDUE")
+    from .C07 import mapping
+
+    with ctx.as_rule("R-C19-OVERDUE"):
+        mapping(ctx, "R-C19-OVERDUE")  # the message's time base is the job's (timestamp handed over): the expiry test and the period grid of the message are those of the job
     from .shared import clock_family
 
     clock_family(ctx, "R-C19-OVERDUE")
